@@ -167,7 +167,8 @@ def _random_cases(tier, seed):
     K = int(rng.integers(1, 13))
     levels = str(rng.choice(['uneven', 'uneven', 'uneven', 'uneven:30', 'equi', 'hybrid:ECMWF137',
                              'hybrid:UFS127']))
-    tref = str(rng.choice(['constant', 'linear', 'random', 'random', 'tropopause']))
+    tref = str(rng.choice(['constant', 'linear', 'random', 'random', 'tropopause', 'cooling',
+                           'isothermal_top', 'plateau_cooling']))
     pool = ETAS_Q if tier == 'quick' else ETAS_T
     n_eta = 4 if tier == 'quick' else 6
     etas = [float(np.sign(e) * 10 ** rng.uniform(-4, np.log10(2.0))) if rng.random() < 0.5 else float(e)
@@ -198,7 +199,7 @@ def _siblings(tier):
   t8 = g(8, 9, 25, 13)
   t8p = g(8, 9, 25, 13, impl='fast', bsm=8)
   out = []
-  for grid, K, levels, trefs in ((t8, 4, 'uneven', ('constant', 'linear', 'tropopause')),
+  for grid, K, levels, trefs in ((t8, 4, 'uneven', ('constant', 'linear', 'cooling', 'isothermal_top')),
                                  (t8p, 3, 'equi', ('linear', 'constant'))):
     for order, tr in (('fwd', trefs), ('rev', trefs[::-1])):
       c = _pe(grid, K, levels, tr[0], etas=(0.05, -0.4))
